@@ -18,10 +18,20 @@ structure Entry where
   dec : Option Bytes
   crc : Nat
 
-def parseEntry : Sexp → Option Entry
+/-- `base`: the decoded bytes of the same block in the unmodified file, for the relative forms
+`same` and `(patch pos byte)` of harness/file.go `compactEntry` -/
+def parseEntryRel (base : Option Bytes) : Sexp → Option Entry
   | .list [.atom "e", .atom "none", c] => do pure { dec := none, crc := (← asNat c) }
+  | .list [.atom "e", .atom "same", c] => do pure { dec := some (← base), crc := (← asNat c) }
+  | .list [.atom "e", .list [.atom "patch", pos, b], c] => do
+    let d ← base
+    let pos ← asNat pos
+    let b ← asBytes b
+    pure { dec := some (d.take pos ++ b ++ d.drop (pos + 1)), crc := (← asNat c) }
   | .list [.atom "e", d, c] => do pure { dec := some (← asBytes d), crc := (← asNat c) }
   | _ => none
+
+def parseEntry : Sexp → Option Entry := parseEntryRel none
 
 def expandIds : List Sexp → Option (List Nat)
   | [] => some []
@@ -130,12 +140,14 @@ structure FileCase where
 
 def renderDump (x : Sexp) : Option String := (parseGoVal x).map renderGoVal
 
-def parseOut : Sexp → Option (List Nat × String × List (Nat × Entry))
+def parseOut (infl : List Entry) : Sexp → Option (List Nat × String × List (Nat × Entry))
   | .list [.atom "o", .list ids, res, .list ov] => do
     let ids ← expandIds ids
     let res := match res with | .atom a => a | .list (.atom "panic" :: _) => "panic" | _ => "?"
     let ov ← ov.mapM fun o => match o with
-      | .list [i, e] => do pure ((← asNat i), (← parseEntry e))
+      | .list [i, e] => do
+        let i ← asNat i
+        pure (i, (← parseEntryRel ((infl[i]?).bind (·.dec)) e))
       | _ => none
     pure (ids, res, ov)
   | _ => none
@@ -144,9 +156,10 @@ def parseFileCase (args : List Sexp) : Option FileCase :=
   match args with
   | [ty, .list [.atom "sch", s, js], .atom codec, file, expect, .list (.atom "muts" :: muts),
       .list (.atom "out" :: .list (.atom "infl" :: infl) :: .list (.atom "recs" :: recs) :: outs)] => do
+    let infl ← infl.mapM parseEntry
     pure { ty := (← parseGoType ty), schema := (← parseSchema s), json := (← asBytes js), codecName := codec,
            file := (← asBytes file), expectSx := expect, muts := (← expandMuts muts),
-           infl := (← infl.mapM parseEntry), recs := (← recs.mapM renderDump), outs := (← outs.mapM parseOut) }
+           infl := infl, recs := (← recs.mapM renderDump), outs := (← outs.mapM (parseOut infl)) }
   | _ => none
 
 def flipBit (bs : Bytes) (pos bit : Nat) : Bytes :=
@@ -303,6 +316,14 @@ def c07c08 (forCuts : Bool) (op : String) (args : List Sexp) : Verdict :=
       match expect with
       | .error e => .bad s!"generated file: {e}"
       | .ok (intact, why) =>
+        -- cuts of files above 16 kB: the oracle judges every cut; the model is run on the cuts within
+        -- 24 bytes of a segment boundary (header end, block start, payload start / end, sync end) and on every 7th cut
+        let marks : List Nat := match intact with
+          | some it => it.hdrLen :: it.blocks.flatMap fun b => [b.start, b.payOff, b.payEnd, b.stop]
+          | none => []
+        let runModel (m : Mut) : Bool := match m with
+          | .cut k => c.file.length ≤ 16384 || k % 7 == 0 || marks.any (fun x => x ≤ k + 24 && k ≤ x + 24)
+          | _ => true
         -- every derived input
         let step (acc : Option Verdict × Nat) (mo : Mut × (List Nat × String × List (Nat × Entry))) : Option Verdict × Nat :=
           let (m, ids, res, ov) := mo
@@ -316,18 +337,10 @@ def c07c08 (forCuts : Bool) (op : String) (args : List Sexp) : Verdict :=
             | .id | .cb _ => c.file
             | .flip p b => flipBit c.file p b
             | .cut k => c.file.take k
+          if res == "skipped" then acc else
           match ids.mapM (fun i => c.recs[i]?) with
           | none => worse (.bad "record id")
           | some del =>
-            -- model
-            let tbl := if ov.isEmpty then baseTbl else
-              let mw := (walkFile input).map (·.2) |>.getD []
-              (ov.filterMap fun (i, e) => (mw[i]?).map fun l => (l.payload, e)) ++ baseTbl
-            let X := mkExt tbl c.json decode
-            let cb : Nat → Option Unit := match m with | .cb i => fun j => if j == i then some () else none | _ => fun _ => none
-            let o := readFile X (input.length + 1) cb input
-            let mdel := o.delivered.map renderGoVal
-            let mres := resClass o.res
             -- oracle
             let orc : Option String :=
               if res == "panic" then some s!"ReadFile panicked ({m.describe})" else
@@ -340,6 +353,16 @@ def c07c08 (forCuts : Bool) (op : String) (args : List Sexp) : Verdict :=
             match orc with
             | some e => worse (.oracle e)
             | none =>
+              if !runModel m then (acc.1, acc.2 + 1) else
+              -- model
+              let tbl := if ov.isEmpty then baseTbl else
+                let mw := (walkFile input).map (·.2) |>.getD []
+                (ov.filterMap fun (i, e) => (mw[i]?).map fun l => (l.payload, e)) ++ baseTbl
+              let X := mkExt tbl c.json decode
+              let cb : Nat → Option Unit := match m with | .cb i => fun j => if j == i then some () else none | _ => fun _ => none
+              let o := readFile X (input.length + 1) cb input
+              let mdel := o.delivered.map renderGoVal
+              let mres := resClass o.res
               if mres == "fuel" then worse (.bad "model out of fuel")
               else if why == "hugelen" then (acc.1, acc.2 + 1)   -- known-finding region: only the oracle runs
               else if mres != res ∨ mdel != del then
@@ -369,7 +392,7 @@ def c07c08 (forCuts : Bool) (op : String) (args : List Sexp) : Verdict :=
               | none => "flip"
             | none => "empty"
           let _ := forCuts
-          .ok s!"file/{why}/{c.codecName}/{kind}/n{if nok ≥ 1000 then "1000+" else if nok ≥ 100 then "100+" else if nok ≥ 10 then "10+" else toString nok}"
+          .ok s!"{if nok == 0 then "trivial/" else ""}file/{why}/{c.codecName}/{kind}/n{if nok ≥ 1000 then "1000+" else if nok ≥ 100 then "100+" else if nok ≥ 10 then "10+" else toString nok}"
 
 def c07 (op : String) (args : List Sexp) : Verdict := c07c08 false op args
 def c08 (op : String) (args : List Sexp) : Verdict := c07c08 true op args
